@@ -47,7 +47,7 @@ theorem all_wfStruct_of_raw : ∀ ss : List Struct, ss.all structRaw = true → 
 theorem wfCallable_canon (g h : Bytes → Bytes) (hg : GOK g) (hh : HOK h) (c : Callable)
     (hr : callableRaw c = true) (hs : callableStrsValid (canonCallable g h c) = true)
     (hz : callableNoNegZero (canonCallable g h c) = true)
-    (hm : callableMBValid (canonCallable g h c) = true)
+    (hm : callableMB32Valid (canonCallable g h c) = true)
     (hd : callableModsDistinct (canonCallable g h c) = true)
     (hc : callableCallsDistinct (canonCallable g h c) = true) :
     wfCallable (canonCallable g h c) = true := by
@@ -58,7 +58,7 @@ theorem wfCallable_canon (g h : Bytes → Bytes) (hg : GOK g) (hh : HOK h) (c : 
 theorem all_wfCallable_canon (g h : Bytes → Bytes) (hg : GOK g) (hh : HOK h) : ∀ cs : List Callable,
     cs.all callableRaw = true → (cs.map (canonCallable g h)).all callableStrsValid = true →
     (cs.map (canonCallable g h)).all callableNoNegZero = true →
-    (cs.map (canonCallable g h)).all callableMBValid = true →
+    (cs.map (canonCallable g h)).all callableMB32Valid = true →
     (cs.map (canonCallable g h)).all callableModsDistinct = true →
     (cs.map (canonCallable g h)).all callableCallsDistinct = true →
     (cs.map (canonCallable g h)).all wfCallable = true
@@ -77,7 +77,7 @@ theorem wfFile_canon (g h : Bytes → Bytes) (hg : GOK g) (hh : HOK h) (f : File
   obtain ⟨incs, fts, sts, cs, call⟩ := f
   simp only [fileRaw, Bool.and_eq_true] at hr
   obtain ⟨⟨⟨⟨r1, r2⟩, r3⟩, r4⟩, r5⟩ := hr
-  simp only [fileHyps, fileStrsValid, fileNoNegZero, fileMBValid, fileModsDistinct, fileCallsDistinct,
+  simp only [fileHyps, fileStrsValid, fileNoNegZero, fileMB32Valid, fileModsDistinct, fileCallsDistinct,
     canonFile, Bool.and_eq_true] at hy
   obtain ⟨⟨⟨⟨⟨⟨⟨s1, s2⟩, s3⟩, s4⟩, z1, z2⟩, m1⟩, d1, d2⟩, c1⟩ := hy
   simp only [wfFile, canonFile, Bool.and_eq_true]
@@ -140,13 +140,13 @@ theorem parseFileGH_inv {g h : Bytes → Bytes} {src : Bytes} {f : File} (hp : p
     simp only [h0, Option.map_some, Option.some.injEq] at hp
     exact ⟨f0, rfl, hp.symm⟩
 
-/-- **The parser produces well-formed files**, up to F6b, F26, F25, F40, F34 -/
+/-- **The parser produces well-formed files**, up to F6b, F26, F29 (F25 subsumed), F40, F34 -/
 theorem parseFileGH_wf (g h : Bytes → Bytes) (hg : GOK g) (hh : HOK h) (src : Bytes) (f : File)
     (hp : parseFileGH g h src = some f) (hy : fileHyps f = true) : wfFile f = true := by
   obtain ⟨f0, h0, rfl⟩ := parseFileGH_inv hp
   exact wfFile_canon g h hg hh f0 (parseFile_range src f0 h0) hy
 
-/-- **Formatting preserves every accepted file text**, up to F6b, F26, F25, F40, F34 -/
+/-- **Formatting preserves every accepted file text**, up to F6b, F26, F29 (F25 subsumed), F40, F34 -/
 theorem format_accepted_file (g h : Bytes → Bytes) (hg : GOK g) (hh : HOK h) (src : Bytes) (f : File)
     (hp : parseFileGH g h src = some f) (hy : fileHyps f = true) :
     parseFileGH g h (fmtFile f) = some (normFile f) ∧ fmtFile (normFile f) = fmtFile f ∧
@@ -287,6 +287,21 @@ theorem readsBack32_file (f : File) (hm : fileMB32Valid f = true) :
   have := List.all_eq_true.mp hm _ hc
   exact readsBack32 s this
 
+theorem callablesMB32Valid_of_wf : ∀ cs : List Callable, cs.all wfCallable = true →
+    cs.all callableMB32Valid = true
+  | [], _ => rfl
+  | c :: r, h => by
+    simp only [List.all_cons, Bool.and_eq_true] at h ⊢
+    refine ⟨?_, callablesMB32Valid_of_wf r h.2⟩
+    cases c with
+    | stage s => exact Martian.FormatStage.stageMB32Valid_of_wf s h.1
+    | pipeline p => rfl
+
+/-- the resource bound of `wfFile` IS `fileMB32Valid` (`wfMB` is the 256 GB bound) -/
+theorem fileMB32Valid_of_wf (f : File) (hw : wfFile f = true) : fileMB32Valid f = true := by
+  obtain ⟨_, _, _, h4, _, _⟩ := wfFile_parts hw
+  exact callablesMB32Valid_of_wf f.callables h4
+
 /-- **Round trip with the REAL reading of `mem_gb` / `vmem_gb`**, below 256 GB -/
 theorem parseFile32_fmtFile (f : File) (hw : wfFile f = true) (hm : fileMB32Valid f = true) :
     parseFile32 (fmtFile f) = some (normFile f) :=
@@ -302,10 +317,15 @@ theorem fileMBValid_of_32 : ∀ cs : List Callable, cs.all callableMB32Valid = t
     | stage s => exact stageMBValid_of_32 s h.1
     | pipeline p => rfl
 
-theorem fileHyps_of_32 (f : File) (hy : fileHyps32 f = true) : fileHyps f = true := by
-  simp only [fileHyps32, Bool.and_eq_true] at hy
-  simp only [fileHyps, Bool.and_eq_true]
-  exact ⟨⟨⟨⟨hy.1.1.1.1, hy.1.1.1.2⟩, fileMBValid_of_32 _ hy.1.1.2⟩, hy.1.2⟩, hy.2⟩
+/-- the two names denote the same conjunction -/
+theorem fileHyps32_eq (f : File) : fileHyps32 f = fileHyps f := rfl
+
+theorem fileHyps_of_32 (f : File) (hy : fileHyps32 f = true) : fileHyps f = true := hy
+
+/-- F29's range is inside F25's (256 GB < 2^53 GB) -/
+theorem fileMBValid_of_hyps (f : File) (hy : fileHyps f = true) : fileMBValid f = true := by
+  simp only [fileHyps, Bool.and_eq_true] at hy
+  exact fileMBValid_of_32 _ hy.1.1.2
 
 theorem fileMB32Valid_norm (f : File) : fileMB32Valid (normFile f) = fileMB32Valid f := by
   simp only [fileMB32Valid, normFile, List.all_map]
